@@ -386,6 +386,7 @@ func runC03(cw *caseWriter, tier string, seed uint64) {
 		runScenarios(cw, 13, seed*100000, 800, 12)
 	}
 	runC102(cw, tier, seed, 1)
+	runC104(cw, tier, seed, 4) // snapshot transfer inside the composed cluster system (Model/ClusterSnap.v)
 }
 
 func runC09(cw *caseWriter, tier string, seed uint64) {
